@@ -595,6 +595,7 @@ func concScenarios(prop string, quick bool) []concPubSub {
 		{name: "pub-q2-pub-q0-sub-q2-inflight1", pubQoS: [][]byte{{2, 2}, {0, 0}}, subQoS: 2, subVersion: refmqtt.V311, maxInflight: 1},
 		{name: "pub-q1-api-late-subscribe", pubQoS: [][]byte{{1, 1}}, apiPub: 1, subQoS: 1, subVersion: refmqtt.V5, recvMax: 1, maxInflight: 100, lateSub: true},
 		{name: "2pub-oversize-among-small-recvmax1", pubQoS: [][]byte{{1, 1, 1}, {1}}, big: [][]bool{{false, true, false}, {false}}, subQoS: 1, subVersion: refmqtt.V5, recvMax: 1, subMaxPkt: 40, maxInflight: 100},
+		{name: "api-2-messages-vs-client-publisher", pubQoS: [][]byte{{1, 1}}, apiPub: 2, subQoS: 1, subVersion: refmqtt.V5, recvMax: 4, maxInflight: 100},
 		{name: "2pub-q1q2-takeover", pubQoS: [][]byte{{1, 2}, {1}}, subQoS: 2, subVersion: refmqtt.V5, recvMax: 2, maxInflight: 100, takeover: true},
 	}
 	if !quick {
